@@ -360,6 +360,52 @@ func C01(run *mon.Run) {
 		}(t)
 	}
 	wg.Wait()
+	// shaped private scalars (powers of two and their neighbours, half-empty scalars): Sign must give
+	// [k]H(m), and that signature must verify under the key's own public key and under no neighbour's
+	{
+		shaped := shapedScalars(r)
+		h := crypto.NewExpandMsgXOFKMAC128("shaped")
+		msg := []byte("shaped scalars")
+		H, err := hashPoint(msg, h, "kmac:shaped")
+		if err != nil {
+			run.Violate("C01:hash-point:shaped", err.Error(), nil)
+		} else {
+			for i, k := range shaped {
+				if run.Quick() && i%3 != int(run.Seed%3+3)%3 && !(k.BitLen() >= 126 && k.BitLen() <= 138) {
+					continue
+				}
+				wg.Add(1)
+				sem <- struct{}{}
+				go func(k *big.Int) {
+					defer wg.Done()
+					defer func() { <-sem }()
+					defer run.Protect("c01 worker")
+					sk := skFromInt(k)
+					rep := map[string]any{"k": k.Text(16), "bits": k.BitLen()}
+					var sig crypto.Signature
+					var err error
+					if run.Guard("Sign", rep, func() { sig, err = sk.Sign(msg, h) }) {
+						return
+					}
+					want := ref.EncodeG1(ref.E1.Mul(H, k))
+					run.Eval(1)
+					if err != nil || !bytes.Equal(sig, want) {
+						run.Violate("C01:sign-mismatch:shaped-scalar", fmt.Sprintf("Sign with the %d-bit private scalar %s returned %x (err %v), [k]H(m) is %x", k.BitLen(), k.Text(16), []byte(sig), err, want), rep)
+						return
+					}
+					verifyExpect(run, "C01", sk.PublicKey(), cand{b: want, kind: "E"}, msg, h, true, "shaped-scalar")
+					// the signature of the scalar with the top bit removed must not verify under this key
+					low := new(big.Int).SetBit(new(big.Int).Set(k), k.BitLen()-1, 0)
+					if low.Sign() != 0 {
+						verifyExpect(run, "C01", sk.PublicKey(), cand{b: ref.EncodeG1(ref.E1.Mul(H, low)), kind: "other-key"}, msg, h, false, "shaped-scalar")
+					}
+					run.Shape(fmt.Sprintf("shaped-scalar|%d", k.BitLen()))
+					run.Count("shaped-scalars", 1)
+				}(k)
+			}
+			wg.Wait()
+		}
+	}
 	// dedicated hunt for points whose x fits x+p < 2^381, so that the non-reduced
 	// encoding of the *accepted* point itself is always tried
 	for i := 0; i < run.Pick(3, 20); i++ {
